@@ -7,6 +7,7 @@ import Driver.ScalarOps
 import Driver.Gsm7Ops
 import Driver.CombinerOps
 import Driver.CodingOps
+import Driver.SplitOps
 
 open Driver
 
@@ -28,7 +29,10 @@ def step (line : String) : String :=
           | none =>
             match codingOp op args with
             | some r => r
-            | none => "bad-op"
+            | none =>
+              match splitOp op args with
+              | some r => r
+              | none => "bad-op"
 
 partial def loop (h : IO.FS.Stream) (out : IO.FS.Stream) : IO Unit := do
   let line ← h.getLine
